@@ -48,6 +48,8 @@ func init() {
 		r.importing = "C16"
 		checkLiteralFidelity(r, ga)
 		checkDoubleNegation(r, ga)
+		r.importing = "C19"
+		checkSelectorString(r, prog, "c19") // the text of a bare (selector-shaped) value is the selector's rendering
 		r.importing = ""
 		r.Technique = "translation validation peg↔table (imported from C20) + PEG well-formedness analyses on the rule table (undefined/duplicate/unreachable rules, left recursion, nullable repetition, label scope), entry anchoring, dispatch exhaustiveness, result-type inference for action type assertions, keyword/identifier boundary via FOLLOW sets"
 		r.Explain = "Decides the structural clauses of C15: the table is the grammar (C20's comparison), the table is a well-formed PEG whose recursive-descent interpretation is defined and terminates, both entry alternatives are anchored at end of input and the entry point / invalid-UTF-8 / recover options are never set by module code, every node type of the table is dispatched by parseExpr, every single-value type assertion in an action is satisfied by the inferred dynamic types of the label it reads on error-free runs, and no keyword literal can be directly followed by an identifier character. NOT decided: that pigeon's combinator engine interprets the table as PEG, and accept/reject on concrete strings against an independent recogniser."
@@ -64,6 +66,9 @@ func init() {
 		checkLiteralFidelity(r, ga)
 		checkKeywordBoundary(r, ga, "c16")
 		checkWhitespaceRule(r, ga)
+		r.importing = "C19"
+		checkSelectorString(r, prog, "c19") // a bare value's text is Selector.String(): dotted join of the parts
+		r.importing = ""
 		r.Technique = "grammar analyses on the rule table: operator-exposure stratification, double-negation fold (typed AST of the action), strconv.Unquote of the whole match, choice shadowing by FIRST-set overlap, keyword boundary by FOLLOW sets"
 		r.Explain = "Decides the facts the statement asserts about the grammar: which operators each operand position can expose without brackets (not > and > or, right grouping, parentheses and braces reset), the not-action folds a double negation to the inner operand, the string-literal action is strconv.Unquote applied to exactly the matched text spanning both delimiters, no alternative ordered before the string-literal alternative of the value rule can start with a quote character, keywords cannot run into identifiers, and the optional-whitespace rule matches only whitespace. NOT decided: equality of trees after print-then-parse over all trees and renderings (there is no printer in the repository)."
 		r.Assume = append(r.Assume, "the table is the grammar (C20)", "pigeon's engine implements PEG semantics (C15, not decided)")
